@@ -27,7 +27,9 @@ import (
 
 const verifDir = "/verif"
 
-var goEnv = []string{"GOFLAGS=-mod=mod", "GOPROXY=off", "GOSUMDB=off", "GOTOOLCHAIN=local", "GOWORK=off"}
+// GODEBUG=goindex=0: the module index of packages in the module cache ignores overlays; sno is
+// instrumented through the overlay, so the index is switched off.
+var goEnv = []string{"GOFLAGS=-mod=mod", "GOPROXY=off", "GOSUMDB=off", "GOTOOLCHAIN=local", "GOWORK=off", "GODEBUG=goindex=0"}
 
 type violation struct {
 	Sig      string `json:"sig"`
@@ -134,7 +136,7 @@ func build() (scratch, worker, inputHash string) {
 		}
 	}
 	out, err := runCmd(verifDir, goEnv, instr, "-out", scratch,
-		"github.com/olive-io/bpmn/v2", "github.com/olive-io/bpmn/v2/pkg/...", "github.com/olive-io/bpmn/v2/model", "verif/harness/...")
+		"github.com/olive-io/bpmn/v2", "github.com/olive-io/bpmn/v2/pkg/...", "github.com/olive-io/bpmn/v2/model", "github.com/muyo/sno", "github.com/muyo/sno/internal", "verif/harness/...")
 	if err != nil {
 		os.RemoveAll(scratch)
 		die("instrumenting /repo failed (does it compile?): %v\n%s", err, out)
